@@ -94,6 +94,11 @@ IMPORTS = {
          'destroying a transaction scans the transaction list from the front: the max_tx cap and the recycling call are what bound that scan '
          '(c08-5, c08-7, c08-11)'),
     ],
+    'C09': [
+        ('C16', ['C16.g'],
+         'progress: the request side suspended on a CONNECT is released by response_progress moving past LINE, the one field the response side '
+         'advances on every way an answer can begin; a gate keyed on anything else answers DATA_OTHER with nothing consumed for ever (c09-13)'),
+    ],
     'C10': [
         ('C04', ['C04.a', 'C04.g'],
          'recycled slots: the list is shifted only by the recycling call and never addressed by a stale ordinal, otherwise slots are never '
